@@ -749,6 +749,12 @@ fn strings(out: &mut Vec<Decl>) {
             vec![Upper, w("s_trunc5", 8)],
             vec![w("s_repl", 9), Trim, Upper],
             vec![Trim, w("s_appendx", 11), Lower],
+            // whitespace-sensitive custom functions BEFORE trim (pre-trimming the input is then unsound)
+            vec![w("s_trunc5", 12), Trim],
+            vec![w("s_appendx", 13), Trim],
+            vec![w("s_prepz", 14), Trim, Lower],
+            vec![Upper, w("s_appendx", 15), Trim],
+            vec![w("s_trunc5", 16), Lower, Trim],
         ]
     };
     let val_sets: Vec<(&str, Vals)> = {
